@@ -222,6 +222,18 @@ def fib_data(rng, n=None, M=None, r=None, S=None):
     return bytes(out)
 
 
+def core_show_bytes(b):
+    """the harness's rendering of a byte string: hex up to 48 bytes, else #len:fnv64"""
+    if len(b) == 0:
+        return "-"
+    if len(b) <= 48:
+        return b.hex()
+    h = 0xcbf29ce484222325
+    for x in b:
+        h = ((h ^ x) * 0x100000001b3) & 0xFFFFFFFFFFFFFFFF
+    return "#%d:%016x" % (len(b), h)
+
+
 def data_classes(rng, n):
     """byte strings of length n of several content classes"""
     k = rng.below(8)
@@ -293,12 +305,9 @@ def c16_cases(ctx):
         ln = rng.choice([0, 1, 5, 100, 3000, 70000])
         data = data_classes(rng, ln)
         level = rng.range(0, 10)
-        cuts = sorted(set([0, ln] + [rng.range(0, ln) for _ in range(rng.range(0, 3))]))
-        ops = ["in %s" % hx(data), "cparams 0 %d %d 15" % (level, rng.range(0, 4))]
-        for a, b in zip(cuts, cuts[1:]):
-            ops.append("ccall @%d:%d %d %d" % (a, b - a, rng.choice([1, 7, 300, 200000]), rng.choice([0, 0, 2, 3])))
-        for _ in range(6):
-            ops.append("ccall - %d 4" % rng.choice([5, 100, 200000]))
+        ops = ["in %s" % hx(data), "cparams 0 %d %d 15" % (level, rng.range(0, 4)),
+               "cdrive @ %s" % ",".join("%d:%d:%d" % (rng.choice([1, 50, 3000, 100000]), rng.choice([1, 7, 300, 200000]), rng.choice([0, 0, 2, 3]))
+                                        for _ in range(rng.range(1, 3)))]
         ctx.add("run_c%d" % i, ops, kind="crun", data=data)
         comp = zlib.compress(data, rng.range(0, 9))
         ops = ["in %s" % hx(comp), "buf %d 0" % (len(data) + 7)]
@@ -307,10 +316,7 @@ def c16_cases(ctx):
         ops2 = ["in %s" % hx(comp), "ziinit 15"]
         ctx.add("run_d%d" % i, ops + ["drive @ flat %d 0 5 %d:%d" % (len(data) + 3, step, rng.choice([-1, 1, 3, 1000]))],
                 kind="drun", data=data)
-        for off in range(0, len(comp) + step, step):
-            ops2.append("zcall inflate @%d:%d %d %d" % (off, step, rng.choice([1, 9, 100000]), 0))
-            if len(ops2) > 60:
-                break
+        ops2.append("zdrive @ %s" % ",".join("%d:%d" % (step, rng.choice([1, 9, 100000])) for _ in range(rng.range(1, 4))))
         ctx.add("run_z%d" % i, ops2, kind="zrun", data=data, comp=comp)
 
 
@@ -339,16 +345,15 @@ def c16_eval(ctx):
     for cid, ops in ctx.cases:
         m = ctx.meta[cid]
         if m["kind"] == "crun":
-            consumed = 0
             q = ["in %s" % hx(m["data"])]
             idx = []
-            for k in range(3, len(ops) + 1):
-                f = parse_fields(ctx.impl.get((cid, k), ("", ""))[1])
-                if "in" not in f:
-                    continue
-                consumed += int(f["in"])
-                q.append("adler 1 @0:%d" % consumed)
-                idx.append((k, len(q)))
+            f = parse_fields(ctx.impl.get((cid, 3), ("", ""))[1])
+            m["cpairs"] = []
+            for j, p in enumerate(x for x in f.get("atr", "").split(";") if x and x != "-"):
+                off, ad = p.split(":")
+                q.append("adler 1 @0:%s" % off)
+                m["cpairs"].append((j + 1, len(q), ad))
+            idx.append((3, 2))
             oq.append((cid, q))
             m["idx"] = idx
         elif m["kind"] in ("drun", "zrun"):
@@ -359,14 +364,28 @@ def c16_eval(ctx):
                 q.append("adler 1 @0:%s" % f.get("out", "0"))
                 idx.append((3, 2))
             else:
-                total = 0
-                for k in range(3, len(ops) + 1):
-                    f = parse_fields(ctx.impl.get((cid, k), ("", ""))[1])
-                    if "dto" not in f:
-                        continue
-                    total += int(f["dto"])
-                    q.append("adler 1 @0:%d" % total)
-                    idx.append((k, len(q)))
+                # mz_stream.adler covers what the decoder has produced into its window, which may run ahead of what the
+                # caller's (small) buffers have taken: it must be the Adler-32 of a prefix of the plaintext that contains
+                # everything delivered, is at most one window ahead of it, and is exactly the delivered bytes at stream end.
+                # The prefix length is searched here (zlib.adler32); the value is then judged by the extracted definition.
+                run = [1]
+                for b in range(len(m["data"])):
+                    run.append(zlib.adler32(m["data"][b:b + 1], run[-1]))
+                f = parse_fields(ctx.impl.get((cid, 3), ("", ""))[1])
+                pairs = [p.split(":") for p in f.get("tra", "").split(";") if p]
+                m["zpairs"] = []
+                for j, (to, ad) in enumerate(pairs):
+                    total, want = int(to), int(ad)
+                    L = total
+                    last = (j == len(pairs) - 1 and f.get("r") == "1" and int(f.get("calls", "0")) == len(pairs))
+                    if not last:
+                        for cand in range(total, min(len(m["data"]), total + 32768) + 1):
+                            if run[cand] == want:
+                                L = cand
+                                break
+                    q.append("adler 1 @0:%d" % L)
+                    m["zpairs"].append((j + 1, len(q), ad))
+                idx.append((3, 2))
             oq.append((cid, q))
             m["idx"] = idx
     orc = oracle_run(ctx, oq)
@@ -379,18 +398,37 @@ def c16_eval(ctx):
                 f = parse_fields(res.get((cid, k), ("", ""))[1])
                 exp = orc.get((cid, qi), ("", "?"))[1]
                 if m["kind"] == "crun":
-                    got = f.get("ad")
+                    badp = None
+                    for (j, qj, ad) in m["cpairs"]:
+                        e = orc.get((cid, qj), ("", "?"))[1]
+                        if ad != e:
+                            badp = (j, ad, e)
+                            break
+                    if badp:
+                        fails.append((cid, "%s build: the compressor's running Adler-32 after call %d is %s, the Adler-32 of the input "
+                                           "consumed so far is %s" % (tag, badp[0], badp[1], badp[2])))
+                    break
                 elif m["kind"] == "drun":
                     got = f.get("ad")
                     if f.get("st") != "0":
                         fails.append((cid, "%s build: valid zlib stream not decoded to Done: %s" % (tag, f)))
                         break
                 else:
-                    got = f.get("adler")
-                    if got == "0" and (exp == "1"):
-                        continue  # header not parsed yet / nothing produced: field may still be 0
+                    if f.get("r") != "1" or f.get("o") != core_show_bytes(m["data"]):
+                        fails.append((cid, "%s build: mz_inflate driven over a valid zlib stream ended with r=%s to=%s" % (tag, f.get("r"), f.get("to"))))
+                        break
+                    badp = None
+                    for (j, qj, ad) in m["zpairs"]:
+                        e = orc.get((cid, qj), ("", "?"))[1]
+                        if ad != e and not (ad == "0" and e == "1"):
+                            badp = (j, ad, e)
+                            break
+                    if badp:
+                        fails.append((cid, "%s build: mz_stream.adler after call %d is %s: not the Adler-32 of the bytes delivered so far (%s) "
+                                           "nor of a longer prefix of the plaintext within one window" % (tag, badp[0], badp[1], badp[2])))
+                    break
                 if got != exp:
-                    fails.append((cid, "%s build: running checksum after op#%d is %s, Adler-32 of the bytes so far is %s" % (tag, k, got, exp)))
+                    fails.append((cid, "%s build: running checksum after op#%d is %s: not the Adler-32 of the bytes so far (%s) nor of any longer prefix within one window" % (tag, k, got, exp)))
                     break
     return fails
 
